@@ -424,6 +424,14 @@ func (obj *Package) Remove(name string) (removed bool) {
 	}
 	name = strings.ToLower(name)
 	obj.mu.Lock()
+	if vv := obj.vars[name]; vv != nil && vv.Pkg != nil && vv.Pkg != obj && obj.Imports[name] == nil {
+		// inherited: it is the variable of the package it came from
+		obj.mu.Unlock()
+		if vv.Pkg.Locked {
+			return false
+		}
+		return vv.Pkg.Remove(name)
+	}
 	if _, has := obj.vars[name]; has {
 		delete(obj.vars, name)
 		removed = true
@@ -580,6 +588,14 @@ func (obj *Package) Unexport(name string) {
 func (obj *Package) Undefine(name string) {
 	name = strings.ToLower(name)
 	obj.mu.Lock()
+	if fi := obj.funcs[name]; fi != nil && fi.Pkg != nil && fi.Pkg != obj && obj.Imports[name] == nil {
+		// inherited: it is the function of the package it came from
+		obj.mu.Unlock()
+		if !fi.Pkg.Locked {
+			fi.Pkg.Undefine(name)
+		}
+		return
+	}
 	if fi := obj.funcs[name]; fi != nil {
 		delete(obj.funcs, name)
 		obj.inherit(name)
@@ -954,6 +970,10 @@ func (obj *Package) GetFunc(name string) (fi *FuncInfo) {
 
 // DefLambda registers a named lambda function. This is called by defun.
 func (obj *Package) DefLambda(name string, lam *Lambda, fc func(args List) Object, kind Symbol) (fi *FuncInfo) {
+	if xf := obj.GetFunc(name); xf != nil && xf.Pkg != nil && xf.Pkg != obj {
+		// inherited or imported: it is the function of the package it came from
+		return xf.Pkg.DefLambda(name, lam, fc, kind)
+	}
 	obj.mu.Lock()
 	if xlam := obj.lambdas[name]; xlam != nil {
 		xlam.Doc = lam.Doc
